@@ -129,6 +129,7 @@ EMB = {e.name: e for e in [
     Emb("m8us", "timedelta64[us]", base=10 ** 15),
     # narrow signed integers AT THE BOTTOM of their range: abstract 1 is the dtype's lowest value (-128, -32768, -2^31), which is
     # a value like any other for these dtypes (only int64 / temporal data have an in-band null); selection-type operations only
+    Emb("u64big", "uint64", base=2 ** 53),          # unsigned values beyond float64's exact range
     Emb("i8lo", "int8", base=-129),
     Emb("i16lo", "int16", base=-32769),
     Emb("i32lo", "int32", base=-2 ** 31 - 1),
